@@ -22,6 +22,11 @@ pub struct Case {
     pub target: u8,
     pub slices: Vec<Hex>,
     pub typ: u32,
+    /// Some: the slices are these (offset, length) ranges of ONE 256-byte buffer
+    /// (pieces of a partition in another order, repeated or overlapping pieces)
+    /// and `slices` is ignored
+    #[serde(default)]
+    pub ranges: Option<Vec<(u8, u8)>>,
 }
 
 fn check_box<T: MaybeDynSized<Metadata = usize> + ?Sized>(hdr: T::Header, hdr_bytes_but_size: &[u8], size_off: usize, slices: &[&[u8]]) -> Result<(), String> {
@@ -84,15 +89,22 @@ fn check_box<T: MaybeDynSized<Metadata = usize> + ?Sized>(hdr: T::Header, hdr_by
 const TARGETS: usize = 13;
 
 pub fn eval(c: &Case, obs: &mut Obs) -> Result<(), String> {
-    let slices: Vec<&[u8]> = c.slices.iter().map(|h| &h.0[..]).collect();
+    let one: Vec<u8> = (0..512).map(|i| marker(c.typ as u64 ^ 0x01E, i)).collect();
+    let slices: Vec<&[u8]> = match &c.ranges {
+        Some(r) => r.iter().map(|(o, l)| &one[*o as usize..*o as usize + *l as usize]).collect(),
+        None => c.slices.iter().map(|h| &h.0[..]).collect(),
+    };
+    if c.ranges.is_some() {
+        obs.class("!ranges-of-one-buffer");
+    }
     let total: usize = slices.iter().map(|s| s.len()).sum();
     if total > 1 << 20 {
         return Err("malformed case".into());
     }
     obs.class(format!("slices-{}", slices.len().min(6)));
     if (total + 8) % 8 != 0 || slices.iter().any(|s| s.is_empty()) || slices.len() >= 3 {
-        obs.nontrivial(fnv(format!("{}{:?}", c.target, c.slices).as_bytes()));
-        obs.sample(json!({"target": c.target, "slice_lengths": slices.iter().map(|s| s.len()).collect::<Vec<_>>()}));
+        obs.nontrivial(fnv(format!("{}{:?}{:?}", c.target, c.slices, c.ranges).as_bytes()));
+        obs.sample(json!({"target": c.target, "slice_lengths": slices.iter().map(|s| s.len()).collect::<Vec<_>>(), "ranges_of_one_buffer": c.ranges}));
     }
     // tag kinds with a sized part: content that cannot form the kind may be
     // rejected by a panic; whatever is returned must obey the same layout law
@@ -197,7 +209,7 @@ fn enumerate(ctx: &Ctx) -> Box<dyn Iterator<Item = Case>> {
                     Hex(s)
                 })
                 .collect();
-            Case { target, slices, typ: 0x1000 + i as u32 }
+            Case { target, slices, typ: 0x1000 + i as u32, ranges: None }
         })
     });
     Box::new(it)
@@ -211,9 +223,39 @@ fn strategy(_: &Ctx) -> BoxedStrategy<Case> {
         1 => (8000usize..8400, any::<u8>()).prop_map(|(n, b)| (0..n).map(|i| b.wrapping_add(i as u8)).collect::<Vec<u8>>()),
         1 => (65000usize..65500, any::<u8>()).prop_map(|(n, b)| (0..n).map(|i| b.wrapping_add(i as u8)).collect::<Vec<u8>>()),
     ];
-    (0u8..TARGETS as u8, proptest::collection::vec(slice, 0..=6), any::<u32>())
-        .prop_map(|(target, s, typ)| Case { target, slices: s.into_iter().map(Hex).collect(), typ })
-        .boxed()
+    // pieces of one buffer: a partition into 2..=5 pieces in another order (the
+    // outer pieces in place and two inner ones swapped, or any order), a piece
+    // twice, overlapping pieces
+    let ranges = (proptest::collection::vec(1u8..40, 2..=5), any::<u32>(), 0u8..4).prop_map(|(lens, r, mode)| {
+        let mut v: Vec<(u8, u8)> = Vec::new();
+        let mut off = (r % 16) as u8;
+        for l in &lens {
+            v.push((off, *l));
+            off += *l;
+        }
+        let k = v.len();
+        match mode {
+            0 if k >= 4 => v.swap(1, 2),
+            0 | 1 => {
+                let (i, j) = ((r >> 4) as usize % k, (r >> 8) as usize % k);
+                v.swap(i, j);
+            }
+            2 => {
+                let i = (r >> 4) as usize % k;
+                let d = v[i];
+                v.insert((r >> 8) as usize % (k + 1), d);
+            }
+            _ => {
+                let i = (r >> 4) as usize % k;
+                v[i].0 = v[i].0.saturating_sub(1 + (r >> 12) as u8 % 3);
+                v[i].1 += 2;
+            }
+        }
+        v
+    });
+    let plain = (0u8..TARGETS as u8, proptest::collection::vec(slice, 0..=6), any::<u32>()).prop_map(|(target, s, typ)| Case { target, slices: s.into_iter().map(Hex).collect(), typ, ranges: None });
+    let shared = (0u8..6, ranges, any::<u32>()).prop_map(|(target, r, typ)| Case { target, slices: vec![], typ, ranges: Some(r) });
+    prop_oneof![3 => plain, 1 => shared].boxed()
 }
 
 // --- clone of every DST kind built by its constructor ---------------------------
@@ -343,7 +385,7 @@ pub fn subs() -> Vec<Box<dyn Sub>> {
     vec![
         Box::new(PropSub::<Case> {
             name: "new_boxed",
-            rule: "new_boxed::<T>(header, slices) for T in {DynSizedStructure<DummyTestHeader>, DummyDstTag, DynSizedStructure<TagHeader>, DynSizedStructure<HeaderTagHeader>, DynSizedStructure<BootInformationHeader>, DynSizedStructure<Multiboot2BasicHeader>, and the tag kinds with a sized part behind the header ModuleTag, MemoryMapTag, SmbiosTag, EFIMemoryMapTag, ElfSectionsTag, FramebufferTag, CommandLineTag (content that cannot form the kind may be rejected by a panic; anything returned obeys the same law)} under a recording global allocator. Enumerated completely: every composition of total length 0..=12 (thorough 17) into 0..=4 slices (empty slices allowed) x 13 targets; generated: up to 6 slices of up to 60 random bytes, sometimes one of ~4 KiB, ~8 KiB or ~64 KiB (structures across the page / 16-bit marks). Oracle: exactly one alloc(size = r8(header + sum), align 8) whose pointer is the Box; header size word == header + sum; bytes after the header == concatenation; size_of_val == r8(total); clone_dyn equal up to the size with one allocation of the same layout; drop = exactly one dealloc with the same pointer and layout (for the box and for the clone). Non-trivial = total not a multiple of 8, an empty slice, or >=3 slices; distinct by (target, slices)",
+            rule: "new_boxed::<T>(header, slices) for T in {DynSizedStructure<DummyTestHeader>, DummyDstTag, DynSizedStructure<TagHeader>, DynSizedStructure<HeaderTagHeader>, DynSizedStructure<BootInformationHeader>, DynSizedStructure<Multiboot2BasicHeader>, and the tag kinds with a sized part behind the header ModuleTag, MemoryMapTag, SmbiosTag, EFIMemoryMapTag, ElfSectionsTag, FramebufferTag, CommandLineTag (content that cannot form the kind may be rejected by a panic; anything returned obeys the same law)} under a recording global allocator. Enumerated completely: every composition of total length 0..=12 (thorough 17) into 0..=4 slices (empty slices allowed) x 13 targets; generated: up to 6 slices of up to 60 random bytes, sometimes one of ~4 KiB, ~8 KiB or ~64 KiB (structures across the page / 16-bit marks); in a quarter of the cases the slices are ranges of ONE buffer - the pieces of a partition in another order, a piece twice, overlapping pieces. Oracle: exactly one alloc(size = r8(header + sum), align 8) whose pointer is the Box; header size word == header + sum; bytes after the header == concatenation; size_of_val == r8(total); clone_dyn equal up to the size with one allocation of the same layout; drop = exactly one dealloc with the same pointer and layout (for the box and for the clone). Non-trivial = total not a multiple of 8, an empty slice, or >=3 slices; distinct by (target, slices)",
             profiles: Profiles::Both,
             quick: 30000,
             thorough: 2000000,
